@@ -522,8 +522,8 @@ def r7(R):
     R.require(n >= 2, 'fsIndex no longer stores buckets')
 
 
-# ------------------------------------------------------------------ C19.R7
-@rule('C19.R7', 'when a bounded min/max query finds nothing under its own '
+# ------------------------------------------------------------------ C19.R8
+@rule('C19.R8', 'when a bounded min/max query finds nothing under its own '
       'prefix it goes on with the neighbouring prefix\'s EXTREME key: the '
       'smallest suffix (00 00) going up, the largest (ff ff) going down '
       '(sibling symmetry of minKey and maxKey)', min_instances=2)
